@@ -2,7 +2,7 @@
     Proofs.v / FeeMono.v / Balance.v / Balance2.v, audited by Print Assumptions. *)
 From V.Lib Require Import Base MachInt.
 From V.Gen Require Import C07Consts.
-From V.C07 Require Import Model Spec Proofs Inv Balance FeeMono Balance2 Refuse Dust FeeShape.
+From V.C07 Require Import Model Spec Corr Wf Proofs Inv Balance FeeMono Balance2 Refuse Dust FeeShape Exact Uneconomic NoPanic Valid Bridge.
 Local Open Scope Z_scope.
 
 (** [FeeRule::fee_required] returns marginal * max(grace, logical actions) — the ZIP 317 formula
@@ -96,6 +96,63 @@ Theorem C07_no_dust_change_each_refuted : exists x c b,
   compute_balance x c = Ok b /\ dust_act c = Reject /\ rule_pos c /\
   no_dust_total c b = true /\ no_dust_each c b = false.
 Proof. exact no_dust_each_refuted. Qed.
+
+(** The fee EQUALS the ZIP 317 fee of the final shape, unless (a) AddDustToFee folded the dust
+    into it (then the change proper is empty or one zero-valued memo carrier), or (b) transparent
+    change was costed, came out zero and was omitted (then the fee is exactly the fee of the shape
+    with that one extra 34-byte output).  This is the boolean [prop_case] evaluates. *)
+Theorem C07_fee_exact_unless : forall x c b, compute_balance x c = Ok b -> rule_pos c ->
+  fee_exact_unless x c b = true.
+Proof. exact fee_exact_unless_holds. Qed.
+
+(** Every proposed change value and the fee are valid amounts. *)
+Theorem C07_change_valid : forall x c b, compute_balance x c = Ok b -> rule_pos c -> eph_valid c ->
+  change_valid b = true.
+Proof. exact change_valid_holds. Qed.
+
+(** No panic: valid amounts, lengths/sizes/counts at most 2^31, the standard rule, and wallet
+    metadata whose pool totals fit MAX_MONEY => none of the unwrap/expect/assert!/overflow sites
+    of the model is reached. *)
+Theorem C07_no_panic : forall x c, wf_tx x = true -> wf_cfg c = true -> meta_ok c = true ->
+  compute_balance x c <> Panic.
+Proof. exact no_panic. Qed.
+
+(** [check_for_uneconomic_inputs]: the positions [dust_ids] are exactly the inputs worth at most
+    the marginal fee, and a DustInputs refusal reports, per pool, the tail of that list beyond the
+    allowed count; in particular every reported input exists and is worth at most the marginal
+    fee, and the report is non-empty. *)
+Theorem C07_dust_positions_exact : forall mf l i0 id,
+  In id (dust_ids mf i0 l) <-> (i0 <= id < i0 + len l /\ nth (Z.to_nat (id - i0)) l (mf + 1) <= mf).
+Proof. exact dust_ids_spec. Qed.
+Theorem C07_uneconomic_report : forall x c pc t s o i,
+  check_for_uneconomic_inputs x c pc = Err (DustInputs t s o i) ->
+  let mf := marginal (rule c) in
+  let td := dust_ids mf 0 (map fst (t_in x)) in let sd := dust_ids mf 0 (s_in x) in
+  let od := dust_ids mf 0 (o_in x) in let id_ := dust_ids mf 0 (i_in x) in
+  exists (a0 : manifest) (rest : list manifest),
+    collect_allowed x c td sd od id_
+      (len (t_in x) + b2z (eph_is_in (ephemeral c)) - len td) (len (s_in x) - len sd)
+      (len (o_in x) - len od) (len (i_in x) - len id_)
+      (len (t_out x) + b2z (eph_is_out (ephemeral c))) pc = Ok (a0 :: rest) /\
+    let a := fold_left manifest_min rest a0 in
+    t = skipn (Z.to_nat (m_t a)) td /\ s = skipn (Z.to_nat (m_s a)) sd /\
+    o = skipn (Z.to_nat (m_o a)) od /\ i = skipn (Z.to_nat (m_i a)) id_ /\
+    all_nil t s o i = false.
+Proof. exact check_dust_inv. Qed.
+(** never more inputs are kept than there are dust inputs *)
+Theorem C07_uneconomic_allowed_bounds : forall x c td sd od id_ tn sn on_ in_ tol m a,
+  allowed_dust x c td sd od id_ tn sn on_ in_ tol m = Ok a ->
+  m_t a <= len td /\ m_s a <= len sd /\ m_o a <= len od /\ m_i a <= len id_.
+Proof. exact allowed_bounds. Qed.
+(** a DustInputs refusal of [compute_balance] is truthful *)
+Theorem C07_dust_inputs_truthful : forall x c t s o i,
+  compute_balance x c = Err (DustInputs t s o i) -> dust_truthful x c t s o i = true.
+Proof. exact compute_dust_truthful. Qed.
+
+(** Bridge: agreement with the model implies the property on the implementation's outcome. *)
+Theorem C07_agree_implies_property : forall k,
+  wf_case k = true -> known_class k = 0%N -> run_case k = true -> prop_case k = true.
+Proof. exact agree_implies_property. Qed.
 
 (** Non-vacuity: the model produces balances, refusals and the repaired crossing case. *)
 Example C07_nonvacuous :
